@@ -400,6 +400,7 @@ type gen struct {
 	oldUIDs map[int][]int
 	nextUID int
 	ver     int
+	nops    int
 	tags    map[string]bool
 }
 
@@ -437,7 +438,7 @@ func (g *gen) genRules(from []int) *rulesT {
 		rule := make([][]int, 9)
 		for f := range rule {
 			rule[f] = []int{}
-			if len(from) > 0 && g.r.intn(9) < 2 {
+			if len(from) > 0 && g.r.intn(9) < 3 {
 				for k := 0; k <= g.r.intn(2); k++ {
 					rule[f] = append(rule[f], from[g.r.intn(len(from))])
 				}
@@ -548,8 +549,14 @@ func (g *gen) members() []int {
 // one operation that respects the contract
 func (g *gen) validOp() *opT {
 	for {
-		switch k := g.r.intn(100); {
-		case k < 12:
+		k := g.r.intn(100)
+		if g.nops < 6 && g.r.intn(3) > 0 {
+			// the calculation graph sends IP sets, then policies/profiles, before the endpoints that use them
+			k = []int{70, 72, 75, 45, 50, 60, 62}[g.r.intn(7)]
+		}
+		g.nops++
+		switch {
+		case k < 13:
 			w := g.r.intn(nW)
 			g.nextUID++
 			if u, ok := g.conn[w]; ok {
@@ -572,24 +579,24 @@ func (g *gen) validOp() *opT {
 			}
 		case k < 22:
 			return &opT{kind: "OInSync"}
-		case k < 38:
+		case k < 37:
 			w := g.r.intn(nW)
 			e := g.genEp(keysOf(g.pols), keysOf(g.profs))
 			g.eps[w] = e
 			return &opT{kind: "OWepUpdate", a: w, ep: e}
-		case k < 42:
+		case k < 41:
 			if ws := keysOf(g.eps); len(ws) > 0 {
 				w := ws[g.r.intn(len(ws))]
 				delete(g.eps, w)
 				delete(g.conn, w) // the processor closes the stream
 				return &opT{kind: "OWepRemove", a: w}
 			}
-		case k < 54:
+		case k < 53:
 			p := g.r.intn(nP)
 			r := g.genRules(keysOf(g.ips))
 			g.pols[p] = r
 			return &opT{kind: "OPolUpdate", a: p, rules: r}
-		case k < 57:
+		case k < 56:
 			if ps := keysOf(g.pols); len(ps) > 0 {
 				p := ps[g.r.intn(len(ps))]
 				if !g.polUsed(p) {
@@ -597,12 +604,12 @@ func (g *gen) validOp() *opT {
 					return &opT{kind: "OPolRemove", a: p}
 				}
 			}
-		case k < 66:
+		case k < 65:
 			f := g.r.intn(nF)
 			r := g.genRules(keysOf(g.ips))
 			g.profs[f] = r
 			return &opT{kind: "OProfUpdate", a: f, rules: r}
-		case k < 69:
+		case k < 68:
 			if fs := keysOf(g.profs); len(fs) > 0 {
 				f := fs[g.r.intn(len(fs))]
 				if !g.profUsed(f) {
@@ -610,15 +617,15 @@ func (g *gen) validOp() *opT {
 					return &opT{kind: "OProfRemove", a: f}
 				}
 			}
-		case k < 79:
+		case k < 78:
 			s := g.r.intn(nS)
 			g.ips[s] = true
 			return &opT{kind: "OIPSetUpdate", a: s, l1: g.members()}
-		case k < 85:
+		case k < 84:
 			if ss := keysOf(g.ips); len(ss) > 0 {
 				return &opT{kind: "OIPSetDelta", a: ss[g.r.intn(len(ss))], l1: g.members(), l2: g.members()}
 			}
-		case k < 88:
+		case k < 87:
 			if ss := keysOf(g.ips); len(ss) > 0 {
 				s := ss[g.r.intn(len(ss))]
 				if !g.setUsed(s) {
@@ -626,14 +633,14 @@ func (g *gen) validOp() *opT {
 					return &opT{kind: "OIPSetRemove", a: s}
 				}
 			}
-		case k < 92:
+		case k < 91:
 			g.ver++
 			a := g.r.intn(nA)
 			g.sas[a] = true
 			return &opT{kind: "OSAUpdate", a: a, b: g.ver}
-		case k < 94:
+		case k < 93:
 			return &opT{kind: "OSARemove", a: g.r.intn(nA)}
-		case k < 98:
+		case k < 97:
 			g.ver++
 			n := g.r.intn(nN)
 			g.nss[n] = true
@@ -712,6 +719,60 @@ func (g *gen) brokenOp() *opT {
 	return nil
 }
 
+
+// ---- scripted histories: fixed scenarios run before the random ones ---------------------------------------------------
+
+func rl(ver int, in, out [][][]int) *rulesT { return &rulesT{ver: ver, in: in, out: out} }
+func fld(k int, ids ...int) [][]int {
+	r := make([][]int, 9)
+	for i := range r {
+		r[i] = []int{}
+	}
+	r[k] = ids
+	return r
+}
+func fld2(k1 int, a int, k2 int, b int) [][]int {
+	r := fld(k1, a)
+	r[k2] = []int{b}
+	return r
+}
+func ep(ver int, profs []int, tiers ...tierT) *epT {
+	if tiers == nil {
+		tiers = []tierT{}
+	}
+	return &epT{ver: ver, tiers: tiers, profs: profs}
+}
+
+func scripts() [][]*opT {
+	o := func(kind string, a, b int) *opT { return &opT{kind: kind, a: a, b: b} }
+	set := func(s int, m ...int) *opT { return &opT{kind: "OIPSetUpdate", a: s, l1: append([]int{}, m...)} }
+	pol := func(p int, r *rulesT) *opT { return &opT{kind: "OPolUpdate", a: p, rules: r} }
+	prof := func(p int, r *rulesT) *opT { return &opT{kind: "OProfUpdate", a: p, rules: r} }
+	wep := func(w int, e *epT) *opT { return &opT{kind: "OWepUpdate", a: w, ep: e} }
+	none := [][][]int{}
+	return [][]*opT{
+		// every rule field carries a reference; a policy update drops and adds references while the workload is connected
+		{set(0, 1, 2), set(1, 3), set(2), set(3, 4, 4, 0),
+			pol(0, rl(1, [][][]int{fld2(0, 0, 8, 1)}, [][][]int{fld2(1, 0, 7, 1)})),
+			prof(0, rl(2, [][][]int{fld2(2, 2, 6, 2)}, [][][]int{fld2(3, 2, 5, 2), fld(4, 2)})),
+			wep(0, ep(3, []int{0}, tierT{in: []int{0}, out: []int{0}})),
+			o("OSAUpdate", 0, 4), o("ONSUpdate", 1, 5), o("OJoin", 0, 1), o("OInSync", 0, 0),
+			pol(0, rl(6, [][][]int{fld(4, 3)}, none)), set(3, 5), {kind: "OIPSetDelta", a: 2, l1: []int{1, 3}, l2: []int{3}},
+			prof(0, rl(7, none, [][][]int{fld(8, 3)})), set(0, 9), o("OIPSetRemove", 1, 0),
+			wep(0, ep(8, []int{}, tierT{in: []int{}, out: []int{0}})), wep(0, ep(9, []int{})),
+			o("OLeave", 0, 1), o("OSAUpdate", 0, 10), o("OJoin", 0, 2), o("OWepRemove", 0, 0), o("OJoin", 0, 3), o("OLeave", 0, 2)},
+		// two workloads sharing a policy, a join before the endpoint is known, a re-join over a live connection, stale leave
+		{o("OJoin", 1, 1), set(0, 1), pol(1, rl(1, [][][]int{fld(8, 0)}, none)), pol(2, rl(2, none, none)),
+			wep(0, ep(3, []int{}, tierT{in: []int{1}, out: []int{}}, tierT{in: []int{}, out: []int{2, 2}})),
+			wep(1, ep(4, []int{}, tierT{in: []int{2}, out: []int{}})),
+			o("OJoin", 0, 2), o("OJoin", 0, 3), pol(2, rl(5, [][][]int{fld(5, 0)}, none)), set(0, 2, 3),
+			o("OLeave", 0, 2), o("ONSUpdate", 0, 6), pol(1, rl(7, none, none)), o("ONSRemove", 0, 0),
+			wep(1, ep(8, []int{})), {kind: "OIPSetDelta", a: 0, l1: []int{}, l2: []int{2}}, o("OInSync", 0, 0), o("OInSync", 0, 0),
+			wep(0, ep(9, []int{}, tierT{in: []int{2}, out: []int{}})), o("OLeave", 1, 1), o("OPolRemove", 1, 0), o("OLeave", 0, 3),
+			pol(2, rl(10, none, none)), o("OIPSetRemove", 0, 0)},
+	}
+}
+
 // ---- running the real Processor --------------------------------------------------------------------------------------
 
 type chanObs struct {
@@ -753,21 +814,27 @@ func main() {
 	for i := 0; i < *n; i++ {
 		g := &gen{r: r, eps: map[int]*epT{}, pols: map[int]*rulesT{}, profs: map[int]*rulesT{}, ips: map[int]bool{},
 			sas: map[int]bool{}, nss: map[int]bool{}, conn: map[int]int{}, oldUIDs: map[int][]int{}, tags: map[string]bool{}}
-		nops := 10 + r.intn(26)
+		nops := 12 + r.intn(24)
 		breakAt := -1
 		if r.intn(8) == 0 {
 			breakAt = 4 + r.intn(nops-4)
 		}
 		var ops []*opT
-		for k := 0; k < nops; k++ {
-			var o *opT
-			if k == breakAt {
-				o = g.brokenOp()
+		if sc := scripts(); i < len(sc) {
+			ops = sc[i]
+			breakAt = -1
+			g.tags["stream:scripted"] = true
+		} else {
+			for k := 0; k < nops; k++ {
+				var o *opT
+				if k == breakAt {
+					o = g.brokenOp()
+				}
+				if o == nil {
+					o = g.validOp()
+				}
+				ops = append(ops, o)
 			}
-			if o == nil {
-				o = g.validOp()
-			}
-			ops = append(ops, o)
 		}
 
 		p := policysync.NewProcessor(make(chan any))
